@@ -14,7 +14,7 @@ import (
 )
 
 func init() {
-	register(&propDef{id: "C18", run: runC18})
+	register(&propDef{id: "C18", run: runC18, controls: controlsC18})
 }
 
 func runC18(p *Prog, r *Report) {
@@ -26,6 +26,12 @@ func runC18(p *Prog, r *Report) {
 	ruleProp(p, r)
 	ruleUTBExists(p, r)
 	ruleMinCluster(p, r)
+	r.Explain = append(r.Explain,
+		"R-UTB/syllables: every function that calls a syllable finder (a function assigning `serial<<4 | type` to GlyphInfo.syllable through a callee) iterates over the syllables on every path and flags each of them whole with unsafeToBreak(start, end), start and end being the two results of syllableIterator.next(): the four syllabic shapers reorder and substitute inside a syllable, so every boundary inside one is unsafe.",
+		"R-UTB/halfopen: unsafeToBreak(start, end) flags [start, end); no function flags such a range and stores into a field of the glyph at index `end` itself (the glyph it rewrites would be left out of the range).")
+	utb := utbCfg{pkg: "harfbuzz", buffer: "Buffer", mark: "unsafeToBreak", iter: "syllableIterator", next: "next", info: "GlyphInfo", syllable: "syllable"}
+	ruleUTBSyllables(p, r, utb, 4)
+	ruleUTBHalfOpen(p, r, utb, 20)
 	r.Assumptions = append(r.Assumptions, "AAT paths are excluded by the property", "that the marked range is the right one, and the script shapers' joining/reordering decisions, are NOT decided (upstream deliberately marks only some cases; a rule there would not be exact)")
 	r.NotDecided = append(r.NotDecided, "that every decision depending on a neighbour marks exactly the glyphs it depended on", "fragment-shaping equality itself")
 }
